@@ -261,6 +261,8 @@ class EvoWorklist(BaseWorklist):
         destination_wells = np.array(destination_wells).flatten("F")
         volumes = np.array(volumes).flatten("F")
         nmax = max((len(source_wells), len(destination_wells), len(volumes)))
+        if np.any(volumes < 0):
+            raise ValueError(f"Volumes must be positive or zero. They were {volumes}")
 
         # Deal with deprecated behavior
         if wash_scheme is None:
